@@ -24,7 +24,7 @@ def _referenced(plan):
             if o.get("k") == "instr":
                 ref.add(o["v"])
                 ref.update(str(x) for x in o["a"].values())
-            elif o.get("k") == "ext":
+            elif o.get("k") == "ext" and "station" in o:
                 ref.add(o["station"])
     return ref
 
